@@ -69,7 +69,7 @@ let node_s (now : n) (m : node) : string =
       (match m.n_cconf with None -> "-" | Some c -> conf_s c)
       (join_or fol) (join_or pend) (join_or ro) (b01 m.n_should_verify)
       (b01 (lease_valid now m)) (b01 (recent_contact now m)) partial
-      (join_or (List.map ns m.n_fsm)) (join_or applies)
+      (join_or (List.map ns m.n_fsm)) (join_or applies) ^ Printf.sprintf " iswait=%d" (List.length m.n_iswait)
   end
 
 let req_s = function
@@ -127,6 +127,7 @@ type mon = {
   mutable nfid : int;
   mutable voters : int;
   mutable static_membership : bool;
+  timed : bool;
   mutable viol : (string * string) list;             (* property, text *)
 }
 
@@ -236,7 +237,9 @@ let monitor_obs (m : mon) (o : obs) =
             | _ -> Hashtbl.replace m.committed i e) (List.assoc id logs)) up;
   (* C07: a leader holds every committed entry *)
   List.iter (fun (id, s) ->
-      if field s "role" = "L" then begin
+      let key = id ^ "/" ^ field s "term" in
+      if field s "role" = "L" && not (Hashtbl.mem m.votes ("leader-seen/" ^ key)) then begin
+        Hashtbl.replace m.votes ("leader-seen/" ^ key) "1";
         let l = List.assoc id logs and lii = int_field s "lii" in
         Hashtbl.iter (fun i e ->
             if i > lii then
@@ -293,7 +296,8 @@ let monitor_obs (m : mon) (o : obs) =
           (match Hashtbl.find_opt m.submitted fid with
            | Some (_, ty, _, sstep) ->
                Hashtbl.iter (fun f (pos, astep) ->
-                   if astep < sstep && pos > r then
+                   (* C17 assumes lease + message delay < election timeout: only the "timed" family keeps that *)
+                   if astep < sstep && pos > r && (ty = 1 || m.timed) then
                      violate m (if ty = 1 then "C05" else "C17")
                        (Printf.sprintf "read %d (submitted at step %d to node %s) saw %d operations but operation future %d, acknowledged at step %d, was number %d"
                           fid sstep node r f astep pos)) m.acked
@@ -354,6 +358,7 @@ type tstate = {
   mutable w : world;
   cmap : (int, n) Hashtbl.t;           (* impl call id -> model call id *)
   mutable seen_results : (int * string) list;
+  mutable waiting : (int * string) list;   (* impl calls whose handler is parked, with destination *)
   mutable diverged : bool;
 }
 
@@ -364,6 +369,18 @@ let out_lines : string list ref = ref []
 let say s = out_lines := s :: !out_lines
 
 let compare_obs (ts : tstate) (m : mon) (o : obs) =
+  (* An InstallSnapshot handler parked in applyCond.Wait resumes when a broadcast finds its wait
+     condition false; whether it or applyLoop wins the lock after a common wake-up is the scheduler's
+     choice, so the model takes the implementation's choice as an input: when the parked call is seen
+     answered, the model fires LInstallResume (a no-op unless the resume is enabled in the model). *)
+  List.iter (fun (id, s) ->
+      if s <> "down" && s <> "frozen" then
+        match get_node ts.w (n_of_s id) with
+        | Some mn ->
+            let k = int_field s "iswait" in
+            let excess = List.length mn.n_iswait - k in
+            for _ = 1 to excess do ts.w <- macro ts.w (LInstallResume (n_of_s id)) done
+        | None -> ()) o.nodes;
   let w = ts.w in
   let bad what detail =
     if not ts.diverged then begin
@@ -390,6 +407,7 @@ let compare_obs (ts : tstate) (m : mon) (o : obs) =
   List.iter (fun (id, _, _, st, _, resp) ->
       match Hashtbl.find_opt ts.cmap id with
       | None -> ()
+      | Some _ when st = "Z" -> ()
       | Some mid ->
           (match List.find_opt (fun c -> c.c_id = mid) w.w_calls with
            | None -> ()
@@ -403,9 +421,12 @@ let compare_obs (ts : tstate) (m : mon) (o : obs) =
       if not (Hashtbl.fold (fun _ v a -> a || v = c.c_id) ts.cmap false) then
         bad (Printf.sprintf "model call %s->%s" (ns c.c_src) (ns c.c_dst)) ("model sent {" ^ req_s c.c_req ^ "} which the impl did not")) live_model;
   (* results *)
-  let model_results = List.concat_map (fun mn -> List.map (fun (fid, r) -> (int_of_n fid, result_s r)) mn.n_results) w.w_nodes in
+  (* the value a read returns depends on whether readOnlyLoop or applyLoop wins the lock after a
+     common wake-up (both orders are legal): reads are compared on payload and time of resolution only *)
+  let norm r = match String.split_on_char ':' r with ["Read"; p; _] -> "Read:" ^ p ^ ":*" | _ -> r in
+  let model_results = List.concat_map (fun mn -> List.map (fun (fid, r) -> (int_of_n fid, norm (result_s r))) mn.n_results) w.w_nodes in
   let fresh = List.filter (fun r -> not (List.mem r ts.seen_results)) model_results in
-  let impl = List.map (fun (fid, _, r) -> (fid, r)) o.results in
+  let impl = List.map (fun (fid, _, r) -> (fid, norm r)) o.results in
   List.iter (fun r -> if not (List.mem r impl) then bad (Printf.sprintf "future %d" (fst r)) ("model resolved it with {" ^ snd r ^ "}, impl did not")) fresh;
   List.iter (fun r -> if not (List.mem r fresh) then bad (Printf.sprintf "future %d" (fst r)) ("impl resolved it with {" ^ snd r ^ "}, model did not")) impl;
   ts.seen_results <- fresh @ ts.seen_results;
@@ -442,12 +463,12 @@ let run_trace_file (path : string) =
            let ids = List.map n_of_s (String.split_on_char ',' (List.assoc "ids" k)) in
            let boot = List.map n_of_s (String.split_on_char ',' (List.assoc "boot" k)) in
            let w = init_world ids boot (n_of_s (List.assoc "et" k)) (n_of_s (List.assoc "ld" k)) in
-           ts := Some { w; cmap = Hashtbl.create 64; seen_results = []; diverged = false };
+           ts := Some { w; cmap = Hashtbl.create 64; seen_results = []; waiting = []; diverged = false };
            mon := Some { tname = Printf.sprintf "%s#%d(%s)" (Filename.basename path) !traces (List.assoc "family" k);
                          step = 0; label = "INIT"; leaders = Hashtbl.create 8; applied = Hashtbl.create 32;
                          committed = Hashtbl.create 32; terms = Hashtbl.create 8; votes = Hashtbl.create 16;
                          lastlog = Hashtbl.create 8; submitted = Hashtbl.create 32; acked = Hashtbl.create 32; nfid = 0;
-                         voters = List.length boot; static_membership = true; viol = [] }
+                         voters = List.length boot; static_membership = true; timed = (List.assoc "family" k = "timed"); viol = [] }
        | "STEP" :: i :: rest ->
            flush_obs ();
            incr steps;
